@@ -7,6 +7,7 @@
 //        sm_replay drift <N> <nb> <it> <seed>
 //        sm_replay wholecell <N> <nb> <it> <axis> <seed>   every whole-cell displacement |m| < N/2: out == in moved by m cells, bit for bit, zeros flowing in
 //        sm_replay weights <it>   ALL single-precision offsets f in [0,1): weights sum to one and reproduce monomials below the order (to a few ulp); unit vector at f == 0
+//        sm_replay trackall <N> <it> <axis> <nparticles> <seed>   applyToAll(list) == applyTo on each element of a copy, once each, bit for bit; list length kept
 // exit 0: real code agrees with the oracle; exit 1: mismatch (printed); exit 3: usage
 #include <cstdio>
 #include <cstdlib>
@@ -179,6 +180,31 @@ int main(int argc, char** argv) {
         km.apply();
         auto exp = oracle_kick(a->getData(), N, nb, it, axis, offd, lb);
         int bad = cmp("kick", b->getData(), exp, N, nb, 2e-5);
+        return bad ? 1 : 0;
+    }
+    if (mode == "trackall" && argc == 7) {
+        int N = atoi(argv[2]), it = atoi(argv[3]), axis = atoi(argv[4]), np = atoi(argv[5]);
+        unsigned seed = atoi(argv[6]);
+        PhaseSpace::resetSize(N, 1);
+        auto a = mkps(N, 1), b = mkps(N, 1);
+        std::mt19937 g(seed);
+        TestKick km(a, b, static_cast<SourceMap::InterpolationType>(it), axis == 0 ? KickMap::Axis::x : KickMap::Axis::y);
+        std::uniform_real_distribution<float> u(-N / 8.0f, N / 8.0f), w(1.0f, N - 2.0f);
+        std::vector<meshaxis_t> off(static_cast<size_t>(N), 0.0f);
+        for (size_t i = 0; i < off.size(); i++) off[i] = u(g);
+        km.set(off);
+        std::vector<PhaseSpace::Position> list(np), one(np);
+        for (int k = 0; k < np; k++) { list[k] = {w(g), w(g)}; one[k] = list[k]; }
+        for (int k = 0; k < np; k++) km.applyTo(one[k]);
+        km.applyToAll(list);
+        int bad = 0;
+        if (int(list.size()) != np) { printf("MISMATCH trackall: list length real_code=%zu oracle=%d\n", list.size(), np); bad++; }
+        for (int k = 0; k < np && k < int(list.size()); k++)
+            if (std::memcmp(&list[k].x, &one[k].x, sizeof(float)) || std::memcmp(&list[k].y, &one[k].y, sizeof(float))) {
+                if (bad < 5) printf("MISMATCH trackall particle=%d real_code=(%.9g,%.9g) oracle=(%.9g,%.9g)\n", k, list[k].x, list[k].y, one[k].x, one[k].y);
+                bad++;
+            }
+        printf("trackall: %d mismatching particles of %d\n", bad, np);
         return bad ? 1 : 0;
     }
     if (mode == "conserve" && argc == 8) {
